@@ -439,3 +439,82 @@ pub fn copy_dir(from: &Path, to: &Path) -> Result<(), String> {
     Ok(())
 }
 
+
+
+// ---------------------------------------------------------------------------------------
+// fsync observation inside this process.  The executable defines `fsync` / `fdatasync` itself, so
+// every call of the code under test (std's File::sync_all / sync_data) lands here first; the size
+// of the file at that moment is recorded per path and the call is passed on (to an LD_PRELOAD
+// interposer if there is one, then to libc).  What a file held at its last completed fsync is what
+// a power loss cannot take away: checks read the registry instead of assuming which calls sync what.
+pub mod fsync_watch {
+    use std::collections::HashMap;
+    use std::sync::Mutex;
+
+    static SYNCED: Mutex<Option<HashMap<String, u64>>> = Mutex::new(None);
+
+    unsafe extern "C" {
+        fn dlsym(handle: *mut std::ffi::c_void, symbol: *const std::ffi::c_char) -> *mut std::ffi::c_void;
+    }
+    const RTLD_NEXT: *mut std::ffi::c_void = -1isize as *mut std::ffi::c_void;
+
+    fn record(fd: i32) {
+        let Ok(path) = std::fs::read_link(format!("/proc/self/fd/{fd}")) else { return };
+        let Ok(meta) = std::fs::metadata(&path) else { return };
+        if let Ok(mut g) = SYNCED.lock() {
+            if let Some(m) = g.as_mut() {
+                m.insert(path.to_string_lossy().to_string(), meta.len());
+            }
+        }
+    }
+
+    fn pass_on(name: &'static [u8], fd: i32) -> i32 {
+        type F = unsafe extern "C" fn(i32) -> i32;
+        let sym = unsafe { dlsym(RTLD_NEXT, name.as_ptr() as *const std::ffi::c_char) };
+        if sym.is_null() {
+            return 0;
+        }
+        let f: F = unsafe { std::mem::transmute(sym) };
+        unsafe { f(fd) }
+    }
+
+    #[unsafe(no_mangle)]
+    pub extern "C" fn fsync(fd: i32) -> i32 {
+        let r = pass_on(b"fsync\0", fd);
+        if r == 0 {
+            record(fd);
+        }
+        r
+    }
+
+    #[unsafe(no_mangle)]
+    pub extern "C" fn fdatasync(fd: i32) -> i32 {
+        let r = pass_on(b"fdatasync\0", fd);
+        if r == 0 {
+            record(fd);
+        }
+        r
+    }
+
+    /// start recording (idempotent)
+    pub fn enable() {
+        let mut g = SYNCED.lock().unwrap();
+        if g.is_none() {
+            *g = Some(HashMap::new());
+        }
+    }
+
+    /// forget what is known about files under `dir`
+    pub fn forget(dir: &std::path::Path) {
+        let prefix = dir.to_string_lossy().to_string();
+        if let Some(m) = SYNCED.lock().unwrap().as_mut() {
+            m.retain(|k, _| !k.starts_with(&prefix));
+        }
+    }
+
+    /// file name -> size at its last observed fsync, for files directly under `dir`
+    pub fn synced_under(dir: &std::path::Path) -> HashMap<String, u64> {
+        let prefix = format!("{}/", dir.to_string_lossy());
+        SYNCED.lock().unwrap().as_ref().map(|m| m.iter().filter_map(|(k, v)| k.strip_prefix(&prefix).filter(|r| !r.contains('/')).map(|r| (r.to_string(), *v))).collect()).unwrap_or_default()
+    }
+}
